@@ -26,6 +26,7 @@ import (
 	rproto "github.com/KevoDB/kevo/proto/kevo/replication"
 	"google.golang.org/grpc"
 	"google.golang.org/grpc/credentials/insecure"
+	"google.golang.org/grpc/metadata"
 )
 
 func init() {
@@ -116,6 +117,7 @@ func replChurnCmd(args []string) int {
 	paceUs := fs.Int("pace_us", 0, "pause of a writer between two operations (0 = full rate)")
 	head := fs.Bool("head", false, "clients ask for the log from the primary's current position instead of from its beginning")
 	ack := fs.Bool("ack", false, "attach a protocol client that acknowledges what it has received every few ms (drives the primary's retention)")
+	nack := fs.Bool("nack", false, "attach a protocol client that reads its stream and keeps sending negative acknowledgements for a sequence it already has")
 	flushMs := fs.Int("flush_ms", 0, "flush the primary (log rotation) every so many ms while the writers run (0 = never)")
 	stacks := fs.String("stacks", "", "write all goroutine stacks to this file when an operation is overdue")
 	fs.Parse(args)
@@ -282,6 +284,38 @@ func replChurnCmd(args []string) int {
 			ac.conn.Close()
 		}()
 	}
+	if *nack {
+		nc, err := attachAckClient(paddr)
+		if err != nil {
+			return fail("cannot attach the negatively acknowledging client: " + err.Error())
+		}
+		log.ev(map[string]interface{}{"e": "fault", "mode": "nack", "id": "ack-client:1"})
+		go func() {
+			got := uint64(0)
+			for !bgStop.Load() {
+				for drained := false; !drained; {
+					select {
+					case q := <-nc.maxSeq:
+						if q > got {
+							got = q
+						}
+					default:
+						drained = true
+					}
+				}
+				if got > 0 {
+					ctx, cancel := context.WithTimeout(metadata.NewOutgoingContext(context.Background(), metadata.Pairs("session-id", nc.session)), 5*time.Second)
+					if r, err := nc.client.NegativeAcknowledge(ctx, &rproto.Nack{MissingFromSequence: got}); err == nil && r.Success {
+						acks.Add(1)
+					}
+					cancel()
+				}
+				time.Sleep(3 * time.Millisecond)
+			}
+			nc.cancel()
+			nc.conn.Close()
+		}()
+	}
 	hung := func() bool {
 		now := time.Now().UnixNano()
 		for w, st := range ws {
@@ -382,7 +416,7 @@ func replChurnCmd(args []string) int {
 	}
 	stop.Store(true)
 	bgStop.Store(true)
-	if *ack || *flushMs > 0 {
+	if *ack || *nack || *flushMs > 0 {
 		log.ev(map[string]interface{}{"e": "note", "acknowledgements": acks.Load(), "flushes": flushes.Load()})
 	}
 	wd := make(chan struct{})
